@@ -199,7 +199,8 @@ def run_property(prop, tier="quick", seed=0, level="proof", only=None, jobs=None
             errors.append(dict(task=t.name, errors=r.get("errors")))
         if t.kind == "sym":
             paths += r.get("paths", 0)
-            row.update(paths=r.get("paths"), completed=r.get("paths_completed"))
+            row.update(paths=r.get("paths"), completed=r.get("paths_completed"), assumes_per_path=(r.get("notes") or {}).get("assumes_max_per_path"),
+                       covers=(r.get("notes") or {}).get("covers"))
             if r.get("budget_hit"):
                 undecided.append(dict(task=t.name, reason="exploration budget exhausted"))
             if not r.get("crashed") and not r.get("errors") and not r.get("inapplicable"):
